@@ -49,7 +49,8 @@ def rules(model: Model, tier: str) -> List[RuleResult]:
     _adjoint_system(model, fc, H)
     hermitian_idiom(model, H, ADJ_FILES, H_EXCEPTIONS)
     _signs(fc, S)
-    return [R1, R2, R3, R4, R5, R6, H, S]
+    _hy = ac.hygiene_rules(model, ac.get_fncls(model, 'solve_torchfcn'), PROP, min_copies=2, min_opt=2)
+    return [R1, R2, R3, R4, R5, R6, H, S, *_hy]
 
 
 def _backward_group_order(fc, R6: RuleResult):
